@@ -16,6 +16,10 @@ CMSVC = "hiten/algorithms/types/services/center.py"
 MANSVC = "hiten/algorithms/types/services/manifold.py"
 BASESVC = "hiten/algorithms/types/services/base.py"
 
+NEWTON = "hiten/algorithms/corrector/backends/newton.py"
+ARMIJO = "hiten/algorithms/corrector/stepping/armijo.py"
+PLAIN = "hiten/algorithms/corrector/stepping/plain.py"
+
 MUTANTS = [
     # ------------------------------------------------------------------ C06
     {"id": "c06-shared-row", "property": "C06", "what": "_poly_mul accumulates into one shared scratch row (classic lost update)",
@@ -103,4 +107,19 @@ MUTANTS = [
      "edits": [(CMSVC, "            self._degree = value\n            self._hamsys = None\n", "            self._degree = value\n")]},
     {"id": "c20-manifold-marker-not-restored", "property": "C20", "what": "the manifold's orbit-state marker is created lazily (not restored by load: the stored result is dropped by a round trip)",
      "edits": [(MANSVC, "        self._manifold_result = None\n        self._orbit_state_key = None\n", "        self._manifold_result = None\n")]},
+    # ------------------------------------------------------------------ C05
+    {"id": "c05-return-after-loop", "property": "C05", "what": "the post-loop block returns the unconverged point instead of raising",
+     "edits": [(NEWTON, "        self.on_failure(x, iterations=max_attempts, residual_norm=r_final_norm)\n\n        raise ConvergenceError(", "        self.on_failure(x, iterations=max_attempts, residual_norm=r_final_norm)\n        return CorrectorOutput(x_corrected=x, iterations=max_attempts, residual_norm=r_final_norm, metadata=metadata)\n        raise ConvergenceError(")]},
+    {"id": "c05-armijo-fallback-x0", "property": "C05", "what": "the Armijo best-point fallback returns the best norm with the starting point",
+     "edits": [(ARMIJO, "            return best_x, best_norm, best_alpha\n", "            return x0, best_norm, best_alpha\n")]},
+    {"id": "c05-cap-after-search", "property": "C05", "what": "the step cap is computed but the uncapped step is searched",
+     "edits": [(ARMIJO, "                delta = delta * (self.max_delta / delta_norm)\n", "                _capped = delta * (self.max_delta / delta_norm)\n")]},
+    {"id": "c05-best-norm-inf", "property": "C05", "what": "best_norm starts at infinity (any trial is an improvement for the fallback)",
+     "edits": [(ARMIJO, "        best_norm = current_norm\n", "        best_norm = float(\"inf\")\n")]},
+    {"id": "c05-raise-in-search-is-success", "property": "C05", "what": "a residual evaluation that raises inside the line search accepts the trial point",
+     "edits": [(ARMIJO, "                alpha *= self.alpha_reduction\n                continue\n\n            # A non-finite trial norm", "                return x_trial, current_norm, alpha\n\n            # A non-finite trial norm")]},
+    {"id": "c05-period-is-half-period", "property": "C05", "what": "apply_correction stores the half period as the period",
+     "edits": [(ORBSVC, "        self.domain_obj.dynamics.period = 2.0 * half_period\n", "        self.domain_obj.dynamics.period = 1.0 * half_period\n")]},
+    {"id": "c05-plain-cap-wrong-norm", "property": "C05", "what": "the plain stepper caps the 2-norm of the step instead of the infinity norm",
+     "edits": [(PLAIN, "                delta_norm = float(np.linalg.norm(delta, ord=np.inf))\n", "                delta_norm = float(np.linalg.norm(delta)) / np.sqrt(delta.size) \n")]},
 ]
